@@ -84,6 +84,40 @@ def as_bool(v):
     raise Unsupported('truthiness of %r' % (v.ty,))
 
 
+def free_names(node, bound=frozenset()):
+    """names an expression reads from the enclosing scope (comprehension targets and lambda parameters are bound)"""
+    out = set()
+
+    def targets(t):
+        return {n.id for n in ast.walk(t) if isinstance(n, ast.Name)}
+
+    def go(n, b):
+        if isinstance(n, ast.Name):
+            if n.id not in b:
+                out.add(n.id)
+            return
+        if isinstance(n, (ast.ListComp, ast.SetComp, ast.GeneratorExp, ast.DictComp)):
+            b2 = set(b)
+            for g in n.generators:
+                go(g.iter, b2)
+                b2 |= targets(g.target)
+                for c in g.ifs:
+                    go(c, b2)
+            if isinstance(n, ast.DictComp):
+                go(n.key, b2)
+                go(n.value, b2)
+            else:
+                go(n.elt, b2)
+            return
+        if isinstance(n, ast.Lambda):
+            go(n.body, set(b) | {a.arg for a in n.args.args})
+            return
+        for c in ast.iter_child_nodes(n):
+            go(c, b)
+    go(node, set(bound))
+    return out
+
+
 class Evaluator:
     """Evaluates ast expressions to symbolic values.  `spec` mode: contract text
     (no obligations are generated, quantifier forms allowed)."""
@@ -125,6 +159,9 @@ class Evaluator:
     def ev_Name(self, node, path, spec):
         n = node.id
         if n in path.env:
+            al = path.env.get('$aliases')
+            if al and any(a[0] == n for a in al.values()):
+                self.eng.flush_aliases(path, container=n)
             return path.env[n]
         if n in ('True', 'False'):
             return S.vbool(n == 'True')
@@ -655,7 +692,7 @@ class Evaluator:
             if isinstance(v, Namespace):
                 return ('ns',) + tuple((k, vid(x)) for k, x in sorted(v.env.items()) if isinstance(x, (V, VObj)))
             return ('x', id(v))
-        names = sorted({n.id for n in ast.walk(node) if isinstance(n, ast.Name)})
+        names = sorted(free_names(node))
         return (ast.dump(node), self.modname) + tuple((n, vid(path.env[n])) for n in names if n in path.env)
 
     def probe_type(self, elt, gens, path, spec):
@@ -789,6 +826,8 @@ class Engine:
         its characterisation (strictly sorted + same elements)."""
         ev = Evaluator(self, modname or self.mod.name, self.cls.name if self.cls else None)
         p = Path(dict(env), path.hyps)
+        if p.env.get('$aliases'):
+            self.flush_aliases(p)         # outside any quantifier: lists that share a mutable local are brought up to date
         p.guards = path.guards
         return self._formula(ev, node, p)
 
@@ -1089,6 +1128,10 @@ class Engine:
             return ev.pair_to_seq(v, ty[1])
         if v.ty == T_NONE and ty == T_NAME:
             return S.name_lit('<None>')
+        if ty[0] == 'opt' and v.ty == ty[1]:
+            return S.opt_some(v)
+        if ty[0] == 'opt' and v.ty == T_NONE:
+            return S.opt_none(ty[1])
         raise Unsupported('coerce %r to %r' % (v.ty, ty))
 
     def construct_obj(self, ev, clsname, node, path, spec):
@@ -1424,6 +1467,16 @@ class Engine:
                 x = self.coerce(E(0), et, ev)
                 r = self.seq_store(base, n, x.t, n + 1, path)
                 self.assign_to(ev, basenode, r, path)
+                if not spec and isinstance(a[0], ast.Tuple):
+                    for fi, e_ in enumerate(a[0].elts):
+                        ev_ = path.env.get(e_.id) if isinstance(e_, ast.Name) else None
+                        if isinstance(ev_, V) and ev_.ty[0] in ('set', 'seq', 'dict', 'tmap'):
+                            if not isinstance(basenode, ast.Name):
+                                raise Unsupported('a mutable local escapes into a container that is not a local list')
+                            self.record_alias(path, e_.id, basenode.id, n, fi)
+                elif not spec and isinstance(a[0], ast.Name) and isinstance(path.env.get(a[0].id), V) \
+                        and path.env[a[0].id].ty[0] in ('set', 'seq', 'dict', 'tmap') and a[0].id in self.mutated_locals:
+                    raise Unsupported('a mutable local that is modified later is appended to a list (aliasing outside the model)')
                 return NONE
             if meth == 'copy':
                 return base
@@ -1538,7 +1591,7 @@ class Engine:
         a = self.named(ev, a, path, 'start')
         R = self.reach_pred(g)
         key = ('reach', g.t.get_id())
-        if key not in self._axiom_keys and ev.is_closed(g.t):
+        if key not in self._axiom_keys and ev.is_closed(g.t) and not self.in_axiom:
             self._axiom_keys.add(key)
             x, y = z3.Const('rx', S.sort_of(T_NAME)), z3.Const('ry', S.sort_of(T_NAME))
             k = z3.Int('rk')
@@ -1646,6 +1699,47 @@ class Engine:
         for pat in (Select(r.t, k), Select(d.t, k)):
             path.hyps.append(S.forall_p([k], body, [pat]))
         return r
+
+    # ---- restricted alias model: a mutable local stored inside a tuple that is appended to a list -----------------
+    # `x = set(); L.append((a, x)); ...; x.add(k)`: L[i][1] IS the object x.  The list keeps a stale snapshot in the
+    # environment; it is brought up to date (flushed) whenever L is read, when x is rebound and at loop heads, so every
+    # observation of L sees the current x - exactly Python's sharing, for this one escape pattern.
+    def record_alias(self, path, local, container, idx, field):
+        al = dict(path.env.get('$aliases') or {})
+        al[local] = (container, idx, field, None)
+        path.env['$aliases'] = al
+
+    def flush_aliases(self, path, container=None, local=None, drop=False):
+        al = path.env.get('$aliases')
+        if not al:
+            return
+        al = dict(al)
+        saved_guards, path.guards = path.guards, []      # the facts defining the flushed list are unconditional
+        try:
+            self._flush(path, al, container, local, drop)
+        finally:
+            path.guards = saved_guards
+
+    def _flush(self, path, al, container, local, drop):
+        for name, (cont, idx, field, last) in list(al.items()):
+            if (container is not None and cont != container) or (local is not None and name != local):
+                continue
+            cur = path.env.get(name)
+            cv = path.env.get(cont)
+            if isinstance(cur, V) and isinstance(cv, V) and cv.ty[0] == 'seq' and (last is None or last != cur.t.get_id()):
+                elem = S.seq_get(cv, idx)
+                et = cv.ty[1]
+                pr = S.opt_val(elem) if et[0] == 'opt' else elem
+                parts = [S.pair_get(pr, i) for i in range(len(pr.ty) - 1)]
+                parts[field] = cur
+                npr = S.mk_pair(parts)
+                nel = S.opt_some(npr) if et[0] == 'opt' else npr
+                path.env[cont] = self.seq_store(cv, idx, nel.t, S.seq_n(cv), path)
+                al[name] = (cont, idx, field, cur.t.get_id())
+                self.keepalive.append(cur.t)
+            if drop:
+                del al[name]
+        path.env['$aliases'] = al
 
     def dict_remove(self, d, key, path):
         r = S.fresh(d.ty, 'ddel')
@@ -2158,6 +2252,13 @@ class Engine:
                 self.assign_target(ev, e, p, path)
             return
         if isinstance(tgt, ast.Name):
+            al = path.env.get('$aliases')
+            if al and tgt.id in al:
+                self.flush_aliases(path, local=tgt.id, drop=True)       # the list keeps the old object
+            if al and any(a_[0] == tgt.id for a_ in al.values()):
+                al2 = {k_: v_ for k_, v_ in al.items() if v_[0] != tgt.id}   # the container name is rebound
+                self.flush_aliases(path, container=tgt.id)
+                path.env['$aliases'] = al2
             if isinstance(val, tuple) and val and val[0] in ('emptyseq', 'emptyset', 'emptydict', 'emptytmap'):
                 val = self.typed_empty(tgt.id, None)
             if isinstance(val, V) and tgt.id in self.c.locals:
@@ -2436,6 +2537,7 @@ class Engine:
 
     def st_For(self, st, path):
         ev = self.evaluator()
+        self.flush_aliases(path)
         key, spec = self.loop_spec(st)
         names, locs = self.write_set(st.body)
         names.discard(None)
@@ -2596,6 +2698,7 @@ class Engine:
 
     def st_While(self, st, path):
         ev = self.evaluator()
+        self.flush_aliases(path)
         key, spec = self.loop_spec(st)
         names, locs = self.write_set(st.body)
         entry = Namespace(dict(path.env))
@@ -2669,6 +2772,9 @@ class Engine:
                 self.loop_ordinals[id(n)] = seen.get(k, 0)
                 seen[k] = seen.get(k, 0) + 1
         self.bound_loops = set()
+        # locals on which a mutating method is called somewhere in the function (alias model, see record_alias)
+        self.mutated_locals = {n.func.value.id for n in ast.walk(self.fn) if isinstance(n, ast.Call) and isinstance(n.func, ast.Attribute)
+                               and n.func.attr in MUTATING_METHODS and isinstance(n.func.value, ast.Name)}
         self.seen_loop_keys = set()
         self.bound_cuts = set()
         self.unproved_termination = []
